@@ -216,3 +216,50 @@ fn c15_sx1276_ldro_survives_programme() { tape::init(); ldro_survives_programme(
 #[kani::proof]
 #[kani::unwind(130)]
 fn c15_sx1272_ldro_survives_programme() { tape::init(); ldro_survives_programme(Sx127x::new(MockSpi, MockIv, Config { chip: Sx1272, tcxo_used: false, tx_boost: false, rx_boost: false }), 0x1d, 0) }
+
+// ------------------------------------------------------------------------------------------------ C14: A-chip refinement (SX127x)
+// The abstract chip of the C14 harnesses ties mode changes to RadioKind methods; here that tie is discharged for the real
+// SX1276/SX1272 driver against the datasheet (SX1276 DS 6.4 / SX1272 DS 6.4, RegOpMode 0x01: bit 7 LongRangeMode, bits 2..0
+// Mode: 0 SLEEP, 1 STDBY, 3 TX, 5 RXCONTINUOUS, 6 RXSINGLE, 7 CAD).  A write is address | 0x80.  Assumed: the silicon.
+fn opmode_writes() -> (usize, u8, bool) {
+    // (number of RegOpMode writes, value of the last one, last write of the whole log is a RegOpMode write)
+    let g = unsafe { &*(&raw const SPI) };
+    let mut i = 0; let mut cnt = 0; let mut last = 0u8; let mut last_is = false;
+    while i < LOG_LEN { if i < g.n { if g.w[i][0] == 0x81 && g.wl[i] == 2 { cnt += 1; last = g.w[i][1]; last_is = true; } else { last_is = false; } } i += 1; }
+    (cnt, last, last_is && g.n < LOG_LEN)
+}
+fn chip127(k: usize) -> Sx127x<MockSpi, MockIv, Sx1276> { Sx127x::new(MockSpi, MockIv, Config { chip: Sx1276, tcxo_used: false, tx_boost: k & 1 == 1, rx_boost: k & 2 == 2 }) }
+// @verif props=C14 obligation=Sx127x::set_standby/set_sleep.chip_mode label=proved-complete tier=quick
+#[kani::proof]
+#[kani::unwind(26)]
+fn c14_sx127x_standby_sleep() {
+    tape::init();
+    let mut r = chip127(tape::below(4));
+    let sleep = tape::boolean();
+    let res = if sleep { r.set_sleep(tape::boolean(), &mut MockDelay) } else { r.set_standby() };
+    let (cnt, last, last_is) = opmode_writes();
+    if res.is_ok() { assert!(cnt == 1 && last_is && last == (if sleep { 0x80 } else { 0x81 }), "C14 set_standby / set_sleep write RegOpMode = LoRa | STDBY / LoRa | SLEEP, once, and nothing after it"); }
+    kani::cover!(res.is_ok() && sleep, "verif-reached: sleep");
+    kani::cover!(res.is_ok() && !sleep, "verif-reached: standby");
+}
+// @verif props=C14 obligation=Sx127x::do_tx/do_rx/do_cad.chip_mode label=proved-complete tier=quick bound="tx; rx single (any symbol count), continuous, duty cycle (refused); cad"
+#[kani::proof]
+#[kani::unwind(26)]
+fn c14_sx127x_start_ops() {
+    tape::init();
+    let mut r = chip127(tape::below(4));
+    let k = tape::below(5);
+    let p = ModulationParams { spreading_factor: SFS[tape::below(8)], bandwidth: BWS[tape::below(10)], coding_rate: CodingRate::_4_5, low_data_rate_optimize: 0, frequency_in_hz: tape::u32() };
+    let res = match k { 0 => r.do_tx(), 1 => r.do_rx(RxMode::Single(tape::u16())), 2 => r.do_rx(RxMode::Continuous),
+        3 => r.do_rx(RxMode::DutyCycle(DutyCycleParams { rx_time: tape::u32(), sleep_time: tape::u32() })), _ => r.do_cad(&p) };
+    let (cnt, last, last_is) = opmode_writes();
+    let g = unsafe { &*(&raw const SPI) };
+    if k == 3 { assert!(res.is_err() && g.n == 0, "C14 duty-cycle reception is refused by the SX127x driver without commanding the chip"); }
+    else if res.is_ok() {
+        let want = [0x83u8, 0x86, 0x85, 0, 0x87][k];
+        assert!(cnt == 1 && last_is && last == want, "C14 do_tx / do_rx / do_cad end with the one RegOpMode write that starts the operation (LoRa | TX, RXSINGLE, RXCONTINUOUS, CAD)");
+    }
+    kani::cover!(res.is_ok() && k == 1, "verif-reached: rx single started");
+    kani::cover!(res.is_ok() && k == 4, "verif-reached: cad started");
+    kani::cover!(k == 3, "verif-reached: duty cycle refused");
+}
